@@ -80,7 +80,7 @@ def rule_c19(ob, clause, wit):
   if clause != "count":
     return None
   if "Transpose" in case:
-    return "C19-transposed-conv-count", "Or(Hi * Wi * Ci * Co != Ho * Wo * Co * Ci, true)"
+    return "C19-transposed-conv-count", "Hi * Wi != Ho * Wo"
   if "Depthwise" in case:
     return "C19-depthwise-multiplier-count", "depth_multiplier != 1"
   if "Conv2D" in case:
